@@ -21,14 +21,16 @@ if [ -n "$jsdemo" ]; then
   echo "-- js demo without change:"; (cd $src && PKG_ROOT=$wt REWRITER_ROOT=$wt VERIF_WT=$wt node demo.js $wt 2>&1 | tail -3)
 else
   if [ -f $src/demo.diff ]; then git apply $src/demo.diff 2>/dev/null || patch -p1 -F3 -s --no-backup-if-mismatch < $src/demo.diff
+    # (a demo.diff that only registers the module: the test file lies next to it)
+    for f in $src/*test*.rs; do [ -f "$f" ] && [ ! -f src/tests/$(basename $f) ] && cp $f src/tests/; done
   else
     for f in $src/*test*.rs; do cp $f src/tests/; done
     for d in $src/*registration*.diff $src/*mod_rs*.diff $src/mod_*.diff; do [ -f $d ] && (git apply $d 2>/dev/null || patch -p1 -F3 -s --no-backup-if-mismatch < $d); done
   fi
-  echo "-- demo with change:"; cargo test --offline seeded 2>&1 | grep -E "^test result|error\[|error:" | head -3
+  echo "-- demo with change:"; cargo test --offline seeded 2>&1 | grep -E "^test result|error\[|^error:|panicked at" | head -6
   # remove only the change, keep the demo
   git apply -R $src/patch.current.diff 2>/dev/null || patch -p1 -R -F3 -s --no-backup-if-mismatch < $src/patch.current.diff
-  echo "-- demo without change:"; cargo test --offline seeded 2>&1 | grep -E "^test result|error\[|error:" | head -3
+  echo "-- demo without change:"; cargo test --offline seeded 2>&1 | grep -E "^test result|error\[|^error:|panicked at" | head -6
 fi
 } > $out 2>&1
 cd /; git -C /repo worktree remove --force $wt
